@@ -8,6 +8,24 @@ PY = "/venv/bin/python"
 
 # id -> (technique, level text, level note, design ref)
 CHECKS = {
+    "C01": (
+        "model-based stateful testing (Hypothesis RuleBasedStateMachine) against an uncompressed grid reference model; bounded ddmin of failing histories",
+        "Every public Table/Row editing operation, with generated coordinates (in range, edge, beyond, negative, all forms) and repeated arguments, is applied to the real table and to a list-of-lists grid; a read battery is compared after every step. Sampled histories, explicit model oracle.",
+        "Trusts lib/gridmodel.py as the transcription of the documented semantics; row styles are not modelled.",
+        "DESIGN.md 3/C01",
+    ),
+    "C02": (
+        "stateful testing with three-way differential oracle: live object vs fresh parse of its own XML vs independent lxml expansion (+ save/reload)",
+        "Same histories as C01 with cache-warming reads before mutations; after every step the live answers must equal those of a fresh parse and of an independent reader of the serialisation, every 5th step also after Document.save + reload.",
+        "Trusts lxml and lib/odfread.expand_table; office-suite string cells without office:string-value compared on type/emptiness only.",
+        "DESIGN.md 3/C02",
+    ),
+    "C07": (
+        "stateful testing with a structural validity predicate (lxml lint of the serialisation) + Hypothesis over name strings",
+        "After every step of generated histories the table XML is linted (repeat attributes, row children, column order, row width vs columns, size vs repeat sums, first row declares columns); table and named-range names are generated over an alphabet with all forbidden characters and accept/reject is compared with the documented rule.",
+        "Trusts lxml; names with control characters and undocumented named-range name classes are not judged.",
+        "DESIGN.md 3/C07",
+    ),
     "C18": (
         "exhaustive boundary-lattice enumeration + Hypothesis random values + mutation of valid encodings (rejection), atheris in thorough",
         "Generated-input search with explicit oracles: decode(encode(v)) == v, encode output matches the xsd/ODF lexical regex, an independent duration reader agrees, and every mutant outside the lexical form must be rejected. Lattices are enumerated completely; everything else is sampled.",
